@@ -1073,6 +1073,28 @@ func (w *c08W) corrupt() *Violation {
 					sealed = b[9] != 0 || b[10] != 0 || b[11] != 0 || b[12] != 0
 				}
 			}
+			// the head of a sealed segment reads back as zeros (a lost first disk block): header and the first data bytes
+			if sealed && budget > 0 && size > 24 {
+				budget--
+				img := w.fs.ImageAt(k, 0)
+				path := c08Base + "/" + id + "/" + e.Name()
+				n := int64(17 + simrt.Mix(w.salt, uint64(size))%uint64(size-17))
+				if n > 4096 {
+					n = 4096
+				}
+				if b, err := img.ReadFile(path); err == nil {
+					for i := int64(0); i < n && i < int64(len(b)); i++ {
+						if b[i] != 0 {
+							img.FlipByte(path, i, b[i])
+						}
+					}
+					w.r.W.Fault("head_zeroed")
+					im := c08Img{k: k, ver: w.ver, what: "final image", verify: true, flip: fmt.Sprintf("%s first %d bytes zeroed", e.Name(), n)}
+					if v := w.interrogate(img, id, im, false); v != nil {
+						return v
+					}
+				}
+			}
 			for _, delta := range []int{-3, 5} {
 				if !sealed || budget <= 0 || size+int64(delta) < 16 {
 					continue
